@@ -226,6 +226,7 @@ func c18Alphabet(s c18Shape, batches []int) []c18Op {
 	for _, n := range batches {
 		ops = append(ops, c18Op{K: "run", N: n})
 	}
+	ops = append(ops, c18Op{K: "restart"})
 	// one run whose sink fails at its first / second call (batch size 1: one entity per call)
 	ops = append(ops, c18Op{K: "runfail", N: 1, F: 1}, c18Op{K: "runfail", N: 1, F: 2})
 	// one run during which entity 1 of a declared dependency dataset is rewired to target 2 / changes a property
@@ -321,6 +322,7 @@ type c18Hist struct {
 	initDone  bool
 	// lastRunCommit: model commit index when the last single run (runw) started, -1 if none since the last fixpoint
 	lastRunCommit int
+	curBatch      int
 }
 
 func (c *c18Hist) jobConfig(batch int) []byte {
@@ -347,6 +349,12 @@ func (c *c18Hist) jobConfig(batch int) []byte {
 }
 
 func (c *c18Hist) setBatch(batch int) error {
+	if c.jb != nil && c.curBatch == batch {
+		// the same job object goes on: what it carries from one run to the next (source state, wrapped sinks) is
+		// part of the behaviour; a new object is only built when the definition changes or the hub restarts
+		return nil
+	}
+	c.curBatch = batch
 	cfg, err := c.jw.Sched.Parse(c.jobConfig(batch))
 	if err != nil {
 		return err
@@ -787,6 +795,14 @@ func c18Replay(task engine.SeqTask) (res engine.SeqResult) {
 					return
 				}
 			}
+		case "restart":
+			// the hub stops and starts: stored tokens stay, job objects are rebuilt from the stored definitions
+			if i == 0 {
+				res.Skip, res.Key = true, "skip"
+				return
+			}
+			jw.Restart()
+			c.jb = nil
 		case "run":
 			if i > 0 {
 				var prevOp c18Op
@@ -836,6 +852,13 @@ func c18Replay(task engine.SeqTask) (res engine.SeqResult) {
 		ids = append(ids, c18IDs(ds)...)
 	}
 	res.Key = h.Canon(ids, p.Shape.datasets(), "")
+	if n := len(task.Hist); n > 0 {
+		var lo c18Op
+		_ = json.Unmarshal(task.Hist[n-1], &lo)
+		if lo.K == "restart" {
+			res.Key += "|just-restarted"
+		}
+	}
 	res.Viol = c.chk.Viol
 	res.Checks = c.chk.Checks
 	res.Outcome = res.Key[:8]
@@ -876,7 +899,7 @@ func init() {
 		}
 	})
 	engine.RegisterCheck("C18", func(r *engine.Run) {
-		r.Rule = "SEQ: for every join shape (2 one-hop, 4 two-hop and 8 three-hop direction patterns, a path through the main dataset in the middle, and two declared dependencies sharing a link dataset; declared in JSON and parsed by the real scheduler) and every batch size in the stated set (and, for shapes with an outgoing first hop of at most two hops, also with the source declared LatestOnly): every history up to the stated depth over {7 entity variants per dataset: property change, link to target 1/2/both/none, delete, second entity; run to fixpoint with batch size 1/2, one run whose sink rejects its 1st/2nd call, one run during which a dependency entity is rewired or changed while the sink handles its first call} starting from a populated graph on which the job has caught up (also with one dependency write - property change or rewiring - landing while that first catch-up is between its pages: the entity it requires must be emitted AFTER the write); every history ends with a run-to-fixpoint (the job is run until its token stops changing) whose emitted entities (recording double around the real DevNullSink) must contain every main entity that changed, every main entity connected now through the join path to a dependency or link entity changed since the previous fixpoint, and - for a first outgoing hop - connected as of the previous fixpoint; emitted entities must be versions of main-dataset entities with the latest version among them; tokens never go back nor beyond the end. distinct = distinct canonical end states"
+		r.Rule = "SEQ: for every join shape (2 one-hop, 4 two-hop and 8 three-hop direction patterns, a path through the main dataset in the middle, and two declared dependencies sharing a link dataset; declared in JSON and parsed by the real scheduler) and every batch size in the stated set (and, for shapes with an outgoing first hop of at most two hops, also with the source declared LatestOnly): every history up to the stated depth over {7 entity variants per dataset: property change, link to target 1/2/both/none, delete, second entity; run to fixpoint with batch size 1/2, one run whose sink rejects its 1st/2nd call, one run during which a dependency entity is rewired or changed while the sink handles its first call, a hub restart (the job object is otherwise kept from run to run)} starting from a populated graph on which the job has caught up (also with one dependency write - property change or rewiring - landing while that first catch-up is between its pages: the entity it requires must be emitted AFTER the write); every history ends with a run-to-fixpoint (the job is run until its token stops changing) whose emitted entities (recording double around the real DevNullSink) must contain every main entity that changed, every main entity connected now through the join path to a dependency or link entity changed since the previous fixpoint, and - for a first outgoing hop - connected as of the previous fixpoint; emitted entities must be versions of main-dataset entities with the latest version among them; tokens never go back nor beyond the end. distinct = distinct canonical end states"
 		r.Assumptions = []string{"entity ids are distinct per dataset (an id living in two datasets of the chain is outside)", "apart from the one dependency write injected between two pages of the first catch-up, no write happens while the job runs: the graph as it stands when the job runs is the model's current graph", "track_queries (JavaScript) registration is not exercised, only declared dependencies"}
 		shapes := c18Shapes()
 		type cfg struct {
